@@ -128,6 +128,14 @@ pub fn run() {
 	for v in spec::v_all() {
 		cases.push((per_version_replay(v, Fill::B), P { comp: 0, hash: true, class: "allversions", ..Default::default() }));
 	}
+	// metadata far larger than any recorder writes (77 KB, 260 KB): JSON entries beyond 64 KiB
+	for n in [300usize, 1000] {
+		let mut a = base_replay((3, 16), vec![pc(0, false), pc(1, false)], 1);
+		a.metadata = Some((0..n).map(|i| (format!("key{:04}", i), crate::ubj::MVal::Str("v".repeat(250)))).collect());
+		for comp in 0..3u8 {
+			cases.push((a.clone(), P { comp, hash: comp == 1, class: "large-metadata", ..Default::default() }));
+		}
+	}
 	// the archive read back under fragmented reads
 	{
 		use crate::env::Sched;
